@@ -28,6 +28,7 @@ TRUSTED = [
 M32, M64 = (1 << 32) - 1, (1 << 64) - 1
 NS_DAY = 86400 * 10**9
 _PQ = None
+_SCRATCH = "/tmp"      # per-job directories live under the run's scratch root (removed by ctx.finish)
 
 
 def _init():
@@ -50,7 +51,21 @@ DTYPES = {
     "ts_ns": ["datetime64[ns, UTC]", "datetime64[ns]"], "int96": ["datetime64[ns]"],
     "time_ms": ["timedelta64[ms]"], "time_us": ["timedelta64[us]"], "float": ["float32"], "double": ["float64"],
     "bytes": ["object"], "flba": ["object"], "utf8": ["object", "str", "string"], "json": ["object"],
+    "decimal": ["float64"],
 }
+
+
+def decimal_expected(e, leaf):
+    """physical cell of a DECIMAL column -> the float the reader must return: unscaled signed integer * 10**-scale
+    (big-endian two's complement for byte arrays, two's complement of the physical width for INT32/INT64)"""
+    if isinstance(e, dict):
+        e = bytes.fromhex(e["b"])
+    if isinstance(e, (bytes, bytearray)):
+        u = int.from_bytes(e, "big", signed=True)
+    else:
+        bits = 32 if leaf["type"] == 1 else 64
+        u = e - (1 << bits) if e >> (bits - 1) else e
+    return u * 10 ** -leaf["scale"]
 
 
 def fp_cells(s, leaf):
@@ -60,6 +75,8 @@ def fp_cells(s, leaf):
     tag, t = leaf["tag"], leaf["type"]
     dt = s.dtype
     out = []
+    if tag == "decimal":
+        return [None if (v is None or v != v) else ("dec", float(v)) for v in s.tolist()]
     if isinstance(dt, pd.CategoricalDtype):
         cats = list(s.cat.categories)
         s = pd.Series([None if c < 0 else cats[c] for c in s.cat.codes], dtype=object)
@@ -120,6 +137,10 @@ def fp_cells(s, leaf):
 
 def cell_ok(e, g, leaf):
     """e: expected physical cell (None | int | {"b": hex}); g: from fp_cells"""
+    if leaf["tag"] == "decimal":
+        if e is None or g is None:
+            return e is None and g is None
+        return isinstance(g, tuple) and g[0] == "dec" and g[1] == decimal_expected(e, leaf)
     if isinstance(e, dict):
         e = bytes.fromhex(e["b"])
     if isinstance(g, tuple) and g[0] == "nan":
@@ -257,6 +278,25 @@ def model_vs_reader(pq, data, lf):
     return bad, n
 
 
+def chunk_model_cells(pq, data, lf, tbl):
+    """Impl/RChunk.rd_chunk on every column chunk of the file -> {name: [cells over the row groups]} or (None, why)"""
+    from harness import pqfile
+    fmd, _ = pqfile.read_footer(data)
+    out = {l["name"]: [] for l in lf["leaves"]}
+    for rg in fmd.row_groups:
+        for col, l in zip(rg.columns, lf["leaves"]):
+            m = col.meta_data
+            start = m.data_page_offset if m.dictionary_page_offset is None else min(m.data_page_offset, m.dictionary_page_offset)
+            chunk = data[start:start + m.total_compressed_size]
+            inplace = 1 if l["type"] in (1, 2, 3, 4, 5) else 0
+            r = pq.call("fmt_rd_chunk", inplace, l["type"], l["tlen"], 1 if l["optional"] else 0, m.codec or 0, m.num_values, chunk,
+                        [list(p) for p in tbl])
+            if r[0] != b"ok":
+                return None, "%s %s" % (r[0].decode(), r[1].decode() if len(r) > 1 else "")
+            out[l["name"]].extend([None if c == [] else c for c in r[1]])
+    return out, None
+
+
 def run_case(lf, table, scratch, cats=False):
     """encode with the spec encoder, read with fastparquet -> dict(outcome, problems, ...)"""
     from harness import fmtlib
@@ -282,6 +322,12 @@ def run_case(lf, table, scratch, cats=False):
         except Exception as e:    # noqa
             import traceback
             res["model_bad"] = [({"harness": "model_vs_reader"}, "exception", traceback.format_exc()[-600:])]
+    res["chunk_model"] = None
+    if not features(lf)["raw"]:
+        try:
+            res["chunk_model"] = chunk_model_cells(pq, data, lf, tbl)
+        except Exception as e:    # noqa
+            res["chunk_model"] = (None, "harness: %s" % e)
     fn = os.path.join(scratch, "c03.parquet")
     with open(fn, "wb") as f:
         f.write(data)
@@ -310,13 +356,36 @@ def run_case(lf, table, scratch, cats=False):
             res["problems"].append(("dtype", "column %s (%s): dtype %s, schema implies %s" % (l["name"], l["tag"], s.dtype, "/".join(DTYPES[l["tag"]]))))
         got = fp_cells(s, l)
         exp = table[l["name"]]
+        res.setdefault("fp_cells", {})[l["name"]] = got
         if len(got) != len(exp):
             continue
         bad = [(i, e, g) for i, (e, g) in enumerate(zip(exp, got)) if not cell_ok(e, g, l)]
+        # numpy 'S' arrays drop trailing NUL bytes: a FIXED_LEN_BYTE_ARRAY value ending in 0x00 comes back shorter (known finding)
+        nul = l["type"] == 7 and l["tag"] == "flba" and bad and all(
+            isinstance(e, dict) and isinstance(g, bytes) and bytes.fromhex(e["b"]).rstrip(b"\0") == g for _, e, g in bad)
         for i, e, g in bad[:2]:
-            res["problems"].append(("decode", "column %s (%s) row %d: file encodes %r, fastparquet returns %r" % (l["name"], l["tag"], i, e, g)))
+            res["problems"].append(("flba-trailing-nul" if nul else "decode",
+                                    "column %s (%s) row %d: file encodes %r, fastparquet returns %r" % (l["name"], l["tag"], i, e, g)))
     if res["problems"]:
         res["outcome"] = "differs"
+    # model of the chunk reader against what the real reader returned (cell by cell, physical bit patterns)
+    cm = res.get("chunk_model")
+    res["chunk_corr"] = None
+    if cm is not None and not cats:
+        cells, why = cm
+        if cells is None:
+            res["chunk_corr"] = ("model: " + why, "reader: ok")
+        else:
+            for l in lf["leaves"]:
+                got = res.get("fp_cells", {}).get(l["name"])
+                mc = cells[l["name"]]
+                if got is None or len(got) != len(mc) or not all(cell_ok(e, g, l) for e, g in zip(mc, got)):
+                    res["chunk_corr"] = ("column %s: %r" % (l["name"], mc[:8]), "%r" % (None if got is None else got[:8]))
+                    break
+            else:
+                res["chunk_corr"] = "agree"
+    res.pop("fp_cells", None)
+    res.pop("chunk_model", None)
     return res
 
 
@@ -358,7 +427,13 @@ def _job_testdata(exp):
         return res
     res["outcome"] = "ok"
     res["digest"] = hashlib.sha256(df.to_json(default_handler=repr).encode()).hexdigest()[:16]
-    if r.get("verdict") == "ok":
+    if r.get("verdict") == "bad":
+        # third-party bookkeeping quirks (legacy writers) do not prevent decoding: compare what the lenient spec decoder reads
+        d = fmtlib.Fmt(_pq()).decode(data, False)
+        if d[0] == "ok":
+            r = {"verdict": "decoded", "leaves": d[1], "rgs": d[2]}
+            res["valid"] += " | lenient decode ok"
+    if r.get("verdict") in ("ok", "decoded"):
         cols = fmtlib.columns_of(r["leaves"], r["rgs"])
         for l in r["leaves"]:
             tag = leaf_tag(l)
@@ -386,7 +461,7 @@ def _job(job):
         except Exception:   # noqa
             import traceback
             return {"outcome": "harness-error", "err": traceback.format_exc()[-1500:], "problems": []}
-    tmp = tempfile.mkdtemp(prefix="verif-C03w-", dir="/tmp")
+    tmp = tempfile.mkdtemp(prefix="verif-C03w-", dir=_SCRATCH)
     try:
         try:
             res = run_case(lf, table, tmp, cats=bool(expect.get("categories")))
@@ -491,6 +566,11 @@ def gen_jobs(ctx):
             p = os.path.join(td, fn)
             if os.path.isfile(p) and fn.endswith(".parquet") and os.path.getsize(p) > 12:
                 jobs.append((None, {}, {"expect": "testdata", "stream": "test-data", "file": fn, "kwargs": {}}))
+    # 0c. deterministic block (identical on every run, no sampling): DECIMAL over FIXED_LEN_BYTE_ARRAY of width 1,2,3,5,7,8,9,16 /
+    #     BYTE_ARRAY / INT32 / INT64 x {negative, zero, positive, min, max} x PLAIN/dictionary x required/optional x v1/v2, and every
+    #     converted/logical type with its sign and extreme values - so that every branch of converted_types.convert is exercised
+    for lf, table in G.fixed_block():
+        jobs.append((lf, table, {"expect": "decode", "stream": "fixed-types"}))
     # 1. random layouts in the region the reader is supposed to support
     for _ in range(260 if quick else 14000):
         add({"width": None, "created_by": rng.choice(["spec-encoder", "parquet-mr version 1.12.3"])})
@@ -556,7 +636,53 @@ def classify(lf, res, what):
             "raw": f["raw"], "problem": (res["problems"][0][0] if res["problems"] else None)}
 
 
+def extraction_vs_kernel(ctx, k=6):
+    """the extracted encoder/decoder (pqref) and kernel evaluation (vm_compute in coqc) agree on small generated
+    layouts: enc_file bytes and the decoded table (DESIGN 3.2)"""
+    import random
+    from harness import fmtlib
+    rng = random.Random("C03-kernel/%d" % ctx.seed)
+    pq = C.Pqref()
+    lfs = []
+    while len(lfs) < k:
+        lf, table = G.gen_lfile(rng, {"ncols": rng.choice([1, 2]), "nrgs": rng.choice([1, 2]), "rows": rng.choice([1, 3, 9]), "codec": 0,
+                                      "created_by": "spec-encoder"})
+        for l in lf["leaves"]:
+            l["logical"] = None
+        lfs.append(lf)
+    req = ("From Coq Require Import NArith ZArith List.\nFrom Pq Require Import Base.Bytes Base.ListX Codec.Hybrid Format.Phys Format.Page Format.File Format.Enc.\n"
+           "Import ListNotations.\nDefinition id_c (_ : Z) (b : bytes) : bytes := b.\nDefinition id_d (_ : Z) (_ : N) (b : bytes) : option bytes := Some b.\n"
+           "Definition show_cells (r : rs (list leaf * list (list (list (option value))))) := match r with ROk x => Some (snd x) | _ => None end.")
+    exprs, want = [], []
+    for lf in lfs:
+        g = fmtlib.lfile_gallina(lf)
+        data, tbl = fmtlib.encode_file(pq, lf)
+        d = fmtlib.Fmt(pq).decode(data, True, tbl)
+        exprs.append("enc_file id_c (%s)" % g)
+        want.append(list(data))
+        exprs.append("lenN (enc_file id_c (%s))" % g)
+        want.append(len(data))
+    outs_b = C.vm_eval(req, exprs[0::2], "list N", os.path.join(ctx.scratch, "kernel_b"), tag="encb")
+    outs_n = C.vm_eval(req, exprs[1::2], "N", os.path.join(ctx.scratch, "kernel_n"), tag="encn")
+    ok, detail = True, ""
+    for i, (ob, on) in enumerate(zip(outs_b, outs_n)):
+        try:
+            kb = C.parse_coq(ob)
+            kn = C.parse_coq(on)
+        except Exception as e:   # noqa
+            ok, detail = False, "cannot parse coqc output: %s" % e
+            break
+        if list(kb) != want[2 * i] or kn != want[2 * i + 1]:
+            ok, detail = False, "layout %d: kernel enc_file differs from pqref fmt_encode (%d vs %d bytes)" % (i, len(kb), want[2 * i + 1])
+            break
+    pq.close()
+    ctx.obligation("extraction agrees with kernel evaluation: enc_file on %d generated layouts (vm_compute in coqc = pqref bytes)" % k, ok, detail)
+    ctx.extra["extraction_vs_kernel_layouts"] = k
+
+
 def run(ctx):
+    global _SCRATCH
+    _SCRATCH = ctx.scratch
     C.coq_lib()
     ctx.trusted = TRUSTED
     ctx.coq_file(os.path.join(C.COQ, "props", "C03.v"))
@@ -566,7 +692,10 @@ def run(ctx):
     ctx.obligation("native code corresponds to the .pyx sources (DESIGN 4.5)", not diffs, repr(diffs[:3]))
     C.shadow()
     C.pqref()
-    ctx.rule = ("layout descriptions from harness/fmtgen.py encoded by the extracted spec encoder: 24 physical x converted/logical types; "
+    extraction_vs_kernel(ctx)
+    ctx.rule = ("layout descriptions from harness/fmtgen.py encoded by the extracted spec encoder: a deterministic block (DECIMAL over FLBA widths "
+                "1,2,3,5,7,8,9,16 / BYTE_ARRAY / INT32 / INT64 and every converted/logical type, each with negative, zero, positive, min, max "
+                "values x PLAIN/dictionary x required/optional x v1/v2); then 24 physical x converted/logical types; "
                 "PLAIN / PLAIN_DICTIONARY / RLE_DICTIONARY (index widths 0..32; runs all-RLE, all-bit-packed, alternating, mixed, single run, "
                 "final run ending mid-group, RLE run longer than needed) / RLE booleans / DELTA_BINARY_PACKED (block 128,256 x miniblocks 1,4,8 "
                 "x delta widths 0..32(56)); definition levels as RLE and bit-packed runs; page boundaries incl. every row; 1..3 row groups; "
@@ -619,6 +748,12 @@ def run(ctx):
                 ctx.correspondence("Impl/RPages.rd_data_page = core.read_data_page on every v1 data page (safe widths)", {}, 1, 1)
             for mcase, mo, io in res.get("model_bad", []):
                 ctx.correspondence("Impl/RPages.rd_data_page = core.read_data_page on every v1 data page (safe widths)", mcase, mo, io)
+            cc = res.get("chunk_corr")
+            if cc == "agree":
+                ctx.correspondence("Impl/RChunk.rd_chunk (page loop, v1+v2 page models) = cells core.read_col returns, per file (safe widths)", {}, 1, 1)
+            elif cc and res["outcome"] == "ok":
+                ctx.correspondence("Impl/RChunk.rd_chunk (page loop, v1+v2 page models) = cells core.read_col returns, per file (safe widths)",
+                                   {"lfile": lf}, cc[0], cc[1])
         if exp["expect"] == "refuse":
             if res["outcome"] != "raised":
                 ctx.fail(classify(lf, res, "not-refused"), case, "a file using an unsupported encoding was decoded to values instead of being refused")
